@@ -470,7 +470,11 @@ fn normalize_space(
         &model::Value::Node(vec![node])
     };
     let r = String::try_from(arg)?;
-    let w = r.split_whitespace().collect::<Vec<&str>>();
+    // white space is production S of XML (#x20, #x9, #xD, #xA), not Unicode white space
+    let w = r
+        .split([' ', '\t', '\r', '\n'])
+        .filter(|v| !v.is_empty())
+        .collect::<Vec<&str>>();
     Ok(model::Value::Text(w.join(" ")))
 }
 
